@@ -345,3 +345,128 @@ func checkGuardDiscipline(c *Ctx, f *FC) {
 		r.Undecided("C02.f", "-", "sites", "fc", sprintf("%d visited-set/memo operations found; the record and union arms of collectTVarFTypeWithSet and transTVFTypeWithSet (8+) were confirmed by hand", sites))
 	}
 }
+
+// C02.a2 — the sibling traversals agree on the components they visit, arm by arm.
+//
+// collectTVarFTypeWithSet decides which type variables exist (they are hoisted to T0, T1, …) and
+// transTVFTypeWithSet substitutes them.  A type-carrying component of a constructor that one of them
+// visits and the other does not is a variable that is substituted but never hoisted, or hoisted but
+// never substituted.  For every arm of the two functions the set of visited components is computed from
+// the normal form (helpers that receive the payload are inlined): the payload's fields of type FType or
+// []FType, plus "#info" when the arm unfolds the named type through the global table
+// (lookupRecInfo / utCases).  The two sets must be equal.
+func checkSiblingComponents(c *Ctx, f *FC) {
+	r := c.R
+	funcs := []string{"collectTVarFTypeWithSet", "transTVFTypeWithSet"}
+	sc := f.M.Main().Types.Scope()
+	ft, _ := sc.Lookup("FType").(*types.TypeName)
+	if ft == nil {
+		r.Undecided("C02.a2", "FType", "definition", "fc", "anchor type not found")
+		return
+	}
+	carries := func(t types.Type) bool {
+		if n, ok := t.(*types.Named); ok && n.Obj() == ft {
+			return true
+		}
+		if sl, ok := t.(*types.Slice); ok {
+			if n, ok := sl.Elem().(*types.Named); ok && n.Obj() == ft {
+				return true
+			}
+		}
+		return false
+	}
+	comps := map[string]map[string]map[string]bool{} // func -> arm -> components
+	for _, name := range funcs {
+		fn, ok := f.Prog.ByName[name]
+		if !ok {
+			r.Undecided("C02.a2", name, "definition", "fc", "anchor function not found")
+			return
+		}
+		// inline helpers that receive the payload
+		n := ir.NewNormalizer()
+		for k, v := range f.N.Inline {
+			n.Inline[k] = v
+		}
+		var nf ir.Term
+		for round := 0; round < 3; round++ {
+			n2 := ir.NewNormalizer()
+			for k, v := range n.Inline {
+				n2.Inline[k] = v
+			}
+			nf = n2.Func(fn)
+			added := false
+			ir.Walk(nf, func(t ir.Term) bool {
+				app, ok := t.(*ir.App)
+				if !ok {
+					return true
+				}
+				fr, ok := app.Fun.(*ir.FuncRef)
+				if !ok {
+					return true
+				}
+				g, ok := f.Prog.ByKey[fr.Key]
+				if !ok || g == fn || n.Inline[g.Key] != nil || g.Name == "lookupRecInfo" || g.Name == "utCases" || g.Name == "rtToKey" || g.Name == "uniToKey" {
+					return true
+				}
+				for _, a := range app.Args {
+					if _, ok := a.(*ir.Payload); ok {
+						n.Inline[g.Key] = g
+						added = true
+					}
+				}
+				return true
+			})
+			if !added {
+				break
+			}
+		}
+		m, ok := nf.(*ir.Match)
+		if !ok {
+			r.Undecided("C02.a2", name, "shape", "fc", "the function is not a single match over FType")
+			return
+		}
+		comps[name] = map[string]map[string]bool{}
+		for _, arm := range m.Arms {
+			an := strings.TrimPrefix(ir.CaseName(arm.Cases[0]), "FType_")
+			set := map[string]bool{}
+			ir.Walk(arm.Body.Ret, func(t ir.Term) bool {
+				switch x := t.(type) {
+				case *ir.Field:
+					if p, ok := x.X.(*ir.Payload); ok && p.Of == arm.Binder && x.Obj != nil && carries(x.Obj.Type()) {
+						set[x.Name] = true
+					}
+				case *ir.App:
+					if fr, ok := x.Fun.(*ir.FuncRef); ok && (fr.Key == f.Path+".lookupRecInfo" || fr.Key == f.Path+".utCases") && len(x.Args) == 1 {
+						if p, ok := x.Args[0].(*ir.Payload); ok && p.Of == arm.Binder {
+							set["#info"] = true
+						}
+					}
+				}
+				return true
+			})
+			comps[name][an] = set
+		}
+	}
+	a, b := comps[funcs[0]], comps[funcs[1]]
+	arms := map[string]bool{}
+	for k := range a {
+		arms[k] = true
+	}
+	for k := range b {
+		arms[k] = true
+	}
+	n := 0
+	for _, arm := range sortedKeysB(arms) {
+		sa, sb := sortedKeysB(a[arm]), sortedKeysB(b[arm])
+		if len(sa) == 0 && len(sb) == 0 {
+			continue
+		}
+		n++
+		r.Check(strings.Join(sa, ",") == strings.Join(sb, ","), "C02.a2", "FType_"+arm, "components", "fc/gen_ast_util.go",
+			"both traversals visit {"+strings.Join(sa, ", ")+"}",
+			funcs[0]+" visits {"+strings.Join(sa, ", ")+"} but "+funcs[1]+" visits {"+strings.Join(sb, ", ")+"}: a type variable in a component only one of them visits is substituted but never hoisted to a type parameter, or hoisted but never substituted (type Tag<T> = | MkTag of int: the T of Tag<_T1> appears only in the type arguments)")
+	}
+	if n < 5 {
+		r.Undecided("C02.a2", "-", "arms", "fc", sprintf("%d component-carrying arms compared; 7 were confirmed by hand", n))
+	}
+}
